@@ -237,6 +237,7 @@ pub trait HKind: 'static {
         0
     }
     fn set_order(mref: &MRef<Self>, order: &[u32]);
+    fn set_split_depth(_mref: &MRef<Self>, _depth: Option<u32>) {}
     /// `Manager::reorder(|m| { f op g (edge level, dropped); set_var_order(m, order) })`; kinds without an
     /// edge-level Boolean operator just reorder
     fn set_order_with_inner_op(mref: &MRef<Self>, order: &[u32], _f: &Self::F, _g: &Self::F) {
@@ -321,6 +322,9 @@ macro_rules! bool_kind {
             }
             fn set_order(mref: &MRef<Self>, order: &[u32]) {
                 <$ddk as dd::BoolKind>::set_order(mref, order)
+            }
+            fn set_split_depth(mref: &MRef<Self>, depth: Option<u32>) {
+                <$ddk as dd::BoolKind>::set_split_depth(mref, depth)
             }
             fn set_order_with_inner_op(mref: &MRef<Self>, order: &[u32], f: &$f, g: &$f) {
                 mref.with_manager_exclusive(|m| {
@@ -693,6 +697,9 @@ pub struct Cfg {
     /// the reordering actions compute A op B (edge-level, result released at once) inside the closure of
     /// `Manager::reorder` before the levels are moved (legal: the closure gets the manager)
     pub inner_op: bool,
+    /// split depth of the multi-threaded apply recursion (None: the manager's default); with one worker
+    /// the parallel code path runs deterministically on a single thread
+    pub split: Option<u32>,
 }
 
 impl Cfg {
@@ -705,11 +712,15 @@ impl Cfg {
         let rest = rest.trim_end_matches('r');
         let nested = rest.ends_with('x');
         let rest = rest.trim_end_matches('x');
-        let (t, k) = match rest.split_once('k') {
+        let (rest, k) = match rest.split_once('k') {
             Some((t, k)) => (t, k.parse().unwrap()),
             None => (rest, 1 << 12),
         };
-        Cfg { nodes: n.parse().unwrap(), cache: c.parse().unwrap(), threads: t.parse().unwrap(), terms: k, nested, inner_op }
+        let (t, split) = match rest.split_once('d') {
+            Some((t, d)) => (t, Some(d.parse().unwrap())),
+            None => (rest, None),
+        };
+        Cfg { nodes: n.parse().unwrap(), cache: c.parse().unwrap(), threads: t.parse().unwrap(), terms: k, nested, inner_op, split }
     }
     pub fn show(&self) -> String {
         format!("nodes={}, cache={}{}{}", self.nodes, self.cache, if self.terms != 1 << 12 { format!(", terminals={}", self.terms) } else { String::new() }, if self.nested { ", nested in another manager's session" } else if self.inner_op { ", operation inside the reorder closure" } else { "" })
@@ -836,6 +847,9 @@ pub struct IState<K: HKind> {
 pub fn new_istate<K: HKind>(cfg: &Cfg) -> IState<K> {
     crate::proto::throttle_threads();
     let mref = K::new_manager_cfg(cfg);
+    if cfg.split.is_some() {
+        K::set_split_depth(&mref, cfg.split);
+    }
     mref.with_manager_exclusive(|m| {
         m.add_vars(K::N0);
     });
@@ -1223,7 +1237,8 @@ fn run_one<K: HKind>(ctx: &mut Ctx, prop: Prop, cfg: &Cfg, seq: &[usize], prev: 
         }
         // Worker threads of the manager keep private free-slot lists (by design of the allocator), so
         // the number of nodes the calling thread can create is only meaningful with a single worker.
-        if cfg.nodes <= 64 && cfg.threads == 1 {
+        // (with a split depth the operations run on the worker thread, which then owns free slots as well)
+        if cfg.nodes <= 64 && cfg.threads == 1 && cfg.split.is_none() {
             let b = {
                 let mut bm = base.borrow_mut();
                 // same number of variables and same order (which diagram hits the limit of a small
